@@ -260,3 +260,208 @@ class SimRandom:
 
     def randbytes(self, n):
         return self.getrandbits(n * 8).to_bytes(n, "little")
+
+
+# ---------------------------------------------------------------------------------------------
+# file system + mtime clock
+# ---------------------------------------------------------------------------------------------
+import errno as _errno
+import os as _os
+
+
+class _SimReadFile:
+    def __init__(self, fs, path, data, fail_after):
+        self.fs = fs
+        self.path = path
+        self.data = data
+        self.pos = 0
+        self.fail_after = fail_after  # None, or number of bytes after which reads raise EIO
+        self.closed = False
+
+    def _check(self):
+        if self.fail_after is not None and self.pos >= self.fail_after:
+            self.fs._fired("read_error")
+            raise OSError(_errno.EIO, "Input/output error", self.path)
+
+    def readline(self):
+        self._check()
+        if self.pos >= len(self.data):
+            return b""
+        end = self.data.find(b"\n", self.pos)
+        end = len(self.data) if end < 0 else end + 1
+        line = self.data[self.pos:end]
+        self.pos = end
+        return line
+
+    def read(self, n=-1):
+        self._check()
+        if n is None or n < 0:
+            n = len(self.data) - self.pos
+        chunk = self.data[self.pos:self.pos + n]
+        self.pos += len(chunk)
+        if self.fail_after is not None and self.pos > self.fail_after:
+            self.fs._fired("read_error")
+            raise OSError(_errno.EIO, "Input/output error", self.path)
+        return chunk
+
+    def __iter__(self):
+        return self
+
+    def __next__(self):
+        line = self.readline()
+        if not line:
+            raise StopIteration
+        return line
+
+    def close(self):
+        self.closed = True
+
+    def __enter__(self):
+        return self
+
+    def __exit__(self, *a):
+        self.close()
+        return False
+
+
+class _SimWriteFile:
+    def __init__(self, fs, path, fail_after, err):
+        self.fs = fs
+        self.path = path
+        self.fail_after = fail_after
+        self.err = err
+        self.written = 0
+        self.closed = False
+
+    def write(self, b):
+        b = bytes(b)
+        if self.fail_after is not None and self.written + len(b) > self.fail_after:
+            keep = max(0, self.fail_after - self.written)
+            self.fs._append(self.path, b[:keep])  # short write: part of the data reaches the disk
+            self.written += keep
+            self.fs._fired("write_error_" + ("enospc" if self.err == _errno.ENOSPC else "eio"))
+            raise OSError(self.err, _os.strerror(self.err), self.path)
+        self.fs._append(self.path, b)
+        self.written += len(b)
+        return len(b)
+
+    def writelines(self, lines):
+        for line in lines:
+            self.write(line)
+
+    def flush(self):
+        pass
+
+    def close(self):
+        self.closed = True
+
+    def __enter__(self):
+        return self
+
+    def __exit__(self, *a):
+        self.close()
+        return False
+
+
+class SimFS:
+    """path -> bytes + mtime, with an mtime clock of configurable granularity and armed I/O faults"""
+
+    def __init__(self, granularity=1.0, start=1_000_000.0, ctx=None):
+        self.files: dict[str, bytes] = {}
+        self.mtimes: dict[str, float] = {}
+        self.gran = granularity
+        self.now = start
+        self.ctx = ctx
+        self.armed = None  # {"kind": open_error|read_error|write_error, ...}: consumed by the next matching access
+        self.fired = []
+        self.opens = 0
+
+    # -- clock --------------------------------------------------------------------------------
+    def tick(self, dt):
+        self.now += dt
+
+    def stamp(self):
+        g = self.gran
+        return int(self.now / g) * g if g >= 1 else round(int(self.now / g) * g, 9)
+
+    # -- internals ------------------------------------------------------------------------------
+    def _fired(self, kind):
+        self.fired.append(kind)
+        if self.ctx:
+            self.ctx.fault("io_" + kind)
+
+    def _append(self, path, b):
+        self.files[path] = self.files.get(path, b"") + b
+        self.mtimes[path] = self.stamp()
+
+    def reset_fired(self):
+        f, self.fired = self.fired, []
+        return f
+
+    # -- direct access for the simulated external editor ----------------------------------------
+    def put(self, path, data):
+        self.files[path] = bytes(data)
+        self.mtimes[path] = self.stamp()
+
+    def get(self, path):
+        return self.files.get(path)
+
+    # -- the seams --------------------------------------------------------------------------------
+    def open(self, path, mode="r", *a, **k):
+        path = _os.fspath(path)
+        self.opens += 1
+        arm = self.armed
+        if arm and arm["kind"] == "open_error":
+            self.armed = None
+            self._fired("open_error")
+            raise OSError(arm["errno"], _os.strerror(arm["errno"]), path)
+        if "b" not in mode:
+            raise ValueError("SimFS: text mode not modelled")
+        if mode.startswith("r"):
+            if path not in self.files:
+                raise FileNotFoundError(_errno.ENOENT, "No such file or directory", path)
+            fail_after = None
+            if arm and arm["kind"] == "read_error":
+                self.armed = None
+                fail_after = arm["after"] % (len(self.files[path]) + 1)
+            return _SimReadFile(self, path, self.files[path], fail_after)
+        if mode.startswith("w"):
+            fail_after = None
+            err = _errno.EIO
+            if arm and arm["kind"] == "write_error":
+                self.armed = None
+                fail_after = arm["after"]
+                err = arm.get("errno", _errno.EIO)
+            self.files[path] = b""  # O_TRUNC
+            self.mtimes[path] = self.stamp()
+            return _SimWriteFile(self, path, fail_after, err)
+        raise ValueError(f"SimFS: mode {mode!r} not modelled")
+
+    def getmtime(self, path):
+        path = _os.fspath(path)
+        if path not in self.files:
+            raise FileNotFoundError(_errno.ENOENT, "No such file or directory", path)
+        return self.mtimes[path]
+
+    def os_shim(self):
+        fs = self
+
+        class _Path:
+            def __getattr__(self, name):
+                return getattr(_os.path, name)
+
+            @staticmethod
+            def getmtime(path):
+                return fs.getmtime(path)
+
+            @staticmethod
+            def exists(path):
+                return _os.fspath(path) in fs.files
+
+        class _Os:
+            path = _Path()
+
+            def __getattr__(self, name):
+                return getattr(_os, name)
+
+        return _Os()
